@@ -4,6 +4,9 @@ import (
 	"context"
 	"fmt"
 	"math/rand"
+	"strings"
+
+	"github.com/herohde/morlock/pkg/engine"
 
 	"github.com/herohde/morlock/pkg/board"
 	"github.com/herohde/morlock/pkg/eval"
@@ -239,9 +242,99 @@ func verifySamples(c *fw.Ctx, s search.Search, tt *recTable, what string) {
 	tt.samples = nil
 }
 
+// engineTransparency: through the Engine API (Reset / Move / SetNoise / SetHash / Analyze) an engine with a
+// hash table must report the same score per iteration as the same engine without one, across games
+// and option changes. Only noise-free analyses are compared (with noise on, the draw order depends on pruning).
+func engineTransparency(c *fw.Ctx, r *rand.Rand, idx int) {
+	ctx := context.Background()
+	rc := &recipes[[]int{0, 3}[r.Intn(2)]]
+	hash := uint([]int{1, 1, 2, 4}[r.Intn(4)])
+	et := rc.newEngine(ctx, engine.Options{Hash: hash}, 0, nil)
+	e0 := rc.newEngine(ctx, engine.Options{Hash: 0}, 0, nil)
+	games := 2 + r.Intn(3)
+	var prevRoot gen.Hist
+	prevTag := ""
+	for g := 0; g < games; g++ {
+		noise := uint([]int{0, 0, 60}[r.Intn(3)])
+		if g == games-1 {
+			noise = 0
+		}
+		et.SetNoise(noise)
+		e0.SetNoise(noise)
+		if r.Intn(4) == 0 {
+			et.SetHash(hash) // re-stating the same size must not matter
+		}
+		h, tag := c11Root(r, idx+g)
+		if g > 0 && r.Intn(2) == 0 {
+			h, tag = prevRoot, prevTag+" (same game again)" // the same game after a reset, possibly under other options
+		}
+		prevRoot, prevTag = h, tag
+		b, ok := boardOf(h)
+		if !ok {
+			continue
+		}
+		n0, n1 := branching(b, 0)
+		depth := depthFor(n0, n1, 2500, 4)
+		what := fmt.Sprintf("engine %s hash %d MB, game %d of %d (noise %d) depth %d %s (%s)", rc.name, hash, g+1, games, noise, depth, histDesc(h), tag)
+		plies := 1 + r.Intn(3)
+		cur := h
+		for k := 0; k < plies; k++ {
+			if !repetitionFree(cur) {
+				break
+			}
+			st, _, err1 := analyze(ctx, et, cur, depth)
+			s0, _, err2 := analyze(ctx, e0, cur, depth)
+			if err1 != nil || err2 != nil {
+				break
+			}
+			c.Eval(1)
+			c.Count("engine_tt_analyses", 1)
+			if noise == 0 {
+				c.Count("engine_tt_compared", 1)
+				if d := streamScoreDiff(st, s0); d != "" {
+					c.Violate("tt:engine-score", "engine with hash table differs from the same engine without: %s: %s", d, what)
+					return
+				}
+			}
+			fp := cur.Final()
+			ms := fp.LegalMoves()
+			if len(ms) == 0 {
+				break
+			}
+			cur = gen.Hist{Start: cur.Start, Moves: append(append([]ref.Move{}, cur.Moves...), ms[(k*7+len(ms)/2)%len(ms)])}
+		}
+		c.Distinct(what)
+	}
+}
+
+// streamScoreDiff compares two PV streams by score per depth (moves and nodes legitimately differ with a table).
+func streamScoreDiff(a, b []searchResult) string {
+	bm := map[string]string{}
+	for _, x := range b {
+		d := x.score[:strings.IndexByte(x.score, ':')]
+		bm[d] = x.score
+	}
+	for _, x := range a {
+		d := x.score[:strings.IndexByte(x.score, ':')]
+		if o, ok := bm[d]; ok && o != x.score {
+			return fmt.Sprintf("iteration %s: %s with table, %s without", d, x.score, o)
+		}
+	}
+	if len(a) > 0 && len(b) > 0 && a[len(a)-1].score != b[len(b)-1].score {
+		return fmt.Sprintf("final iteration: %s with table, %s without", a[len(a)-1].score, b[len(b)-1].score)
+	}
+	return ""
+}
+
 func runC11(c *fw.Ctx, cs fw.Case) {
 	r := cs.Rand()
 	ctx := context.Background()
+	if cs.Kind == "engine" {
+		for i := 0; i < cs.N; i++ {
+			engineTransparency(c, r, cs.Idx*100+i)
+		}
+		return
+	}
 	budget := 6000.0
 	if !c.Quick() {
 		budget = 40000
@@ -374,10 +467,11 @@ func init() {
 		Setup:       validateOracle,
 		Timeout:     minutes(15, 120),
 		Cases: func(tier string, seed int64) []fw.Case {
-			return mkCases(nil, "sequences", 64, seed, pick(tier, 14, 1200))
+			l := mkCases(nil, "sequences", 64, seed, pick(tier, 14, 1200))
+			return mkCases(l, "engine", 16, seed, pick(tier, 3, 150))
 		},
 		Floors: func(string) map[string]int64 {
-			return map[string]int64{"tt_searches": 1500, "tt_hits": 5000, "exact_entries_verified": 1000, "game_plies": 100, "narrow_window_searches": 100}
+			return map[string]int64{"tt_searches": 1500, "tt_hits": 5000, "exact_entries_verified": 1000, "game_plies": 100, "narrow_window_searches": 100, "engine_tt_compared": 40}
 		},
 		Run: runC11,
 	})
